@@ -27,6 +27,7 @@ type Solver struct {
 	Cross     []CrossResult
 	crossOn   bool
 	Wins      map[string]int
+	cancel    chan struct{} // closed to abandon running queries
 }
 
 type CrossResult struct {
@@ -56,24 +57,31 @@ type QueryResult struct {
 // SMT core on parser-style formulas and up to 100x slower on loop/heap-merge formulas).
 type strategy struct {
 	name, bin, check string
+	args             []string
+	logic            string
 }
 
-func strategiesFor(hasUF bool) []strategy {
+func strategiesFor(hasUF, hasArith bool) []strategy {
 	bin := os.Getenv("GOSMT_Z3")
 	if bin == "" {
 		bin = "z3"
 	}
 	if hasUF {
 		return []strategy{
-			{"z3-smt", bin, "(check-sat)"},
-			{"z3-qfufbv", bin, "(check-sat-using (then simplify solve-eqs simplify qfufbv))"},
+			{name: "z3-smt", bin: bin, check: "(check-sat)"},
+			{name: "z3-qfufbv", bin: bin, check: "(check-sat-using (then simplify solve-eqs simplify qfufbv))"},
+			{name: "cvc5", bin: "cvc5", check: "(check-sat)", logic: "QF_UFBV"},
 		}
 	}
-	return []strategy{
-		{"z3-bitblast", bin, "(check-sat-using (then simplify solve-eqs simplify bit-blast sat))"},
-		{"z3-smt", bin, "(check-sat)"},
-		{"z3-qfbv", bin, "(check-sat-using qfbv)"},
+	st := []strategy{
+		{name: "z3-bitblast", bin: bin, check: "(check-sat-using (then simplify solve-eqs simplify bit-blast sat))"},
+		{name: "z3-smt", bin: bin, check: "(check-sat)"},
+		{name: "cvc5", bin: "cvc5", check: "(check-sat)", logic: "QF_BV"},
 	}
+	if hasArith {
+		st = append(st, strategy{name: "cvc5-int-blast", bin: "cvc5", check: "(check-sat)", logic: "QF_BV", args: []string{"--solve-bv-as-int=iand"}})
+	}
+	return st
 }
 
 var solverSlots = make(chan struct{}, 16)
@@ -142,7 +150,7 @@ func (s *Solver) portfolio(text string, hasUF bool, sc *Script) QueryResult {
 		}
 		gv.WriteString("))\n")
 	}
-	strats := strategiesFor(hasUF)
+	strats := strategiesFor(hasUF, sc.hasArith)
 	type ans struct {
 		st  strategy
 		out string
@@ -157,7 +165,11 @@ func (s *Solver) portfolio(text string, hasUF bool, sc *Script) QueryResult {
 	for _, st := range strats {
 		f := filepath.Join(dir, fmt.Sprintf("q%d-%d-%s.smt2", os.Getpid(), seq, st.name))
 		files = append(files, f)
-		body := "(set-option :produce-models true)\n" + text + st.check + "\n" + gv.String()
+		body := "(set-option :produce-models true)\n"
+		if st.logic != "" {
+			body += "(set-logic " + st.logic + ")\n"
+		}
+		body += text + st.check + "\n" + gv.String()
 		if err := os.WriteFile(f, []byte(body), 0o644); err != nil {
 			return QueryResult{Status: "error: " + err.Error()}
 		}
@@ -170,7 +182,13 @@ func (s *Solver) portfolio(text string, hasUF bool, sc *Script) QueryResult {
 				ch <- ans{st, "", fmt.Errorf("cancelled")}
 				return
 			}
-			cmd := exec.Command(st.bin, fmt.Sprintf("-T:%d", s.timeoutMs/1000+1), "-memory:12000", f)
+			var cmd *exec.Cmd
+			if strings.HasPrefix(st.name, "cvc5") {
+				args := append([]string{fmt.Sprintf("--tlimit=%d", s.timeoutMs+1000)}, st.args...)
+				cmd = exec.Command(st.bin, append(args, f)...)
+			} else {
+				cmd = exec.Command(st.bin, fmt.Sprintf("-T:%d", s.timeoutMs/1000+1), "-memory:12000", f)
+			}
 			cmds = append(cmds, cmd)
 			cmu.Unlock()
 			out, err := cmd.Output()
@@ -187,7 +205,17 @@ func (s *Solver) portfolio(text string, hasUF bool, sc *Script) QueryResult {
 	got := 0
 	var notes []string
 	for got < len(strats) {
-		a := <-ch
+		var a ans
+		if s.cancel != nil {
+			select {
+			case a = <-ch:
+			case <-s.cancel:
+				res.Status = "unknown(cancelled)"
+				goto finish
+			}
+		} else {
+			a = <-ch
+		}
 		got++
 		first := strings.TrimSpace(a.out)
 		rest := ""
@@ -216,6 +244,7 @@ func (s *Solver) portfolio(text string, hasUF bool, sc *Script) QueryResult {
 			notes = append(notes, a.st.name+": "+first)
 		}
 	}
+finish:
 	cmu.Lock()
 	killed = true
 	for _, c := range cmds {
